@@ -30,8 +30,16 @@ try:
     r = subprocess.run([os.path.join(VERIF, "check"), a.prop, "--tier", a.tier], cwd=VERIF, env=env, capture_output=True, text=True)
     keys = [l.strip() for l in r.stdout.splitlines() if l.strip().startswith("key=")]
     viol = [l for l in r.stdout.splitlines() if l.startswith("VIOLATION")]
-    print(json.dumps({"property": a.prop, "patch": a.patch, "tier": a.tier, "seed": a.seed, "rc": r.returncode, "caught": r.returncode == 1 and bool(viol),
-                      "violations": len(viol), "violation_keys": [k[:300] for k in keys[:8]], "wall_s": round(time.time() - t0, 1),
-                      "stderr_tail": r.stderr[-600:] if r.returncode not in (0, 1) else ""}))
+    res = {"property": a.prop, "patch": a.patch, "tier": a.tier, "seed": a.seed, "rc": r.returncode, "caught": r.returncode == 1 and bool(viol),
+           "violations": len(viol), "violation_keys": [k[:300] for k in keys[:8]], "wall_s": round(time.time() - t0, 1),
+           "verif_commit": subprocess.run(["git", "-C", VERIF, "rev-parse", "--short", "HEAD"], capture_output=True, text=True).stdout.strip(),
+           "repo_commit": subprocess.run(["git", "-C", "/repo", "rev-parse", "--short", "HEAD"], capture_output=True, text=True).stdout.strip(),
+           "stderr_tail": r.stderr[-600:] if r.returncode not in (0, 1) else ""}
+    print(json.dumps(res))
+    store = os.path.join(VERIF, "seeded", os.path.basename(os.path.dirname(os.path.abspath(a.patch))))
+    if os.path.isdir(store) and os.path.abspath(os.path.dirname(a.patch)) == store:
+        hist = os.path.join(store, "results.jsonl")
+        with open(hist, "a") as f:
+            f.write(json.dumps(res) + "\n")
 finally:
     shutil.rmtree(tmp, ignore_errors=True)
